@@ -77,7 +77,7 @@ func (r *runner) exec(v *variant, timeout time.Duration, args ...string) *runInf
 	var raceBase string
 	if strings.Contains(v.Name, "race") {
 		raceBase = r.tmpName("race")
-		env = append(env, "GORACE=log_path="+raceBase+" halt_on_error=0 history_size=3")
+		env = append(env, "GORACE=log_path="+raceBase+" halt_on_error=0 history_size=3 atexit_sleep_ms=0")
 	}
 	cmd.Env = env
 	cmd.Dir = r.b.scratch
@@ -206,6 +206,21 @@ func (r *runner) runPlan(v *variant, prop string, seed int64, index int, tier st
 			return oc
 		}
 		sum := fatalSummary(info.Stderr)
+		// A session that already panics inside the library (or dies) when it is
+		// run alone in a fresh process reads or writes memory it should not:
+		// whether that ends in a recoverable panic or in a fatal error depends on
+		// what the memory happens to hold. Such a death is not history
+		// dependence (it is C01/C08 territory); it is counted and excluded.
+		if oc.Plan.Mode == "sessions" && prop != "C06" {
+			for k := range oc.Plan.Sessions {
+				ref := r.cold(v, oc.Plan, k)
+				if ref.Fatal != "" || hasLibraryPanic(ref.Obs) {
+					oc.Res = &plan.Result{PlanHash: oc.Plan.Hash(), Excluded: 1}
+					oc.PlanHash = oc.Res.PlanHash
+					return oc
+				}
+			}
+		}
 		oc.Viols = append(oc.Viols, plan.Violation{Oracle: "fatal", Where: "worker died: " + fmt.Sprint(info.ExitErr), Sig: "fatal|" + fatalClass(sum),
 			Detail: addrRe.ReplaceAllString(sum, "0xADDR")})
 		return oc
@@ -223,7 +238,8 @@ func (r *runner) runPlan(v *variant, prop string, seed int64, index int, tier st
 		for _, rep := range parseRaceLog(lg) {
 			if rep.LibSide {
 				oc.Viols = append(oc.Viols, plan.Violation{Oracle: "race", Where: rep.Where, Sig: "race|" + rep.Key, Detail: rep.Text})
-			} else {
+			} else if !oc.Res.Deadlock {
+				// (after a deadlock the parked tasks never hand their state over)
 				oc.Infra = "race report with harness frames only:\n" + rep.Text
 			}
 		}
@@ -249,6 +265,15 @@ func (r *runner) runPlan(v *variant, prop string, seed int64, index int, tier st
 }
 
 func (o *workerOut) Res() *plan.Result { return o.Result }
+
+func hasLibraryPanic(obs []string) bool {
+	for _, o := range obs {
+		if strings.Contains(o, "panic: runtime error") || strings.Contains(o, "panic: reflect:") {
+			return true
+		}
+	}
+	return false
+}
 
 func fatalClass(sum string) string {
 	first := strings.SplitN(sum, "\n", 2)[0]
@@ -595,20 +620,25 @@ func parseRaceLog(lg string) []raceReport {
 				continue // goroutine creation stacks etc.
 			}
 			top := ""
+			harness := false
 			for _, l := range st[1:] {
 				m := frameRe.FindStringSubmatch(l)
 				if m == nil {
 					continue
 				}
 				fn := m[1]
-				if strings.HasPrefix(fn, "runtime.") || strings.HasPrefix(fn, "sync.") || strings.HasPrefix(fn, "sync/atomic.") || strings.Contains(fn, "/verifsim.") {
+				if strings.HasPrefix(fn, "runtime.") || strings.HasPrefix(fn, "sync.") || strings.HasPrefix(fn, "sync/atomic.") || strings.HasPrefix(fn, "reflect.") {
 					continue
 				}
+				// the innermost frame outside the runtime decides whose access it is
 				top = fn
+				if strings.Contains(fn, "/verifsim.") || strings.HasPrefix(fn, "vsim/") || strings.HasPrefix(fn, "encoding/json.") {
+					harness = true
+				}
 				break
 			}
 			tops = append(tops, top)
-			if strings.Contains(top, "github.com/goccy/go-json") {
+			if !harness && strings.Contains(top, "github.com/goccy/go-json") {
 				lib = true
 			}
 		}
